@@ -565,3 +565,77 @@ func okCondN(okCond func(cond ssa.Value, truth bool) bool, cond ssa.Value, truth
 	}
 	return false
 }
+
+// throughValidators widens an edge predicate: an edge also counts when it is
+// the "no error" outcome of a test on the error result of a small helper every
+// nil-error return of which lies behind an edge that counts (so a fact
+// established inside a decode-and-validate helper is seen by its callers).
+func throughValidators(ok func(cond ssa.Value, truth bool) bool) func(cond ssa.Value, truth bool) bool {
+	memo := map[*ssa.Function]int{} // 0 unknown, 1 in progress / no, 2 yes
+	var wide func(cond ssa.Value, truth bool) bool
+	validates := func(g *ssa.Function) bool {
+		switch memo[g] {
+		case 1:
+			return false
+		case 2:
+			return true
+		}
+		memo[g] = 1
+		res := g.Signature.Results()
+		if res == nil || res.Len() == 0 || !isErrorType(res.At(res.Len()-1).Type()) {
+			return false
+		}
+		n := 0
+		for _, b := range g.Blocks {
+			ret, isRet := b.Instrs[len(b.Instrs)-1].(*ssa.Return)
+			if !isRet || len(ret.Results) == 0 {
+				continue
+			}
+			if !isNilConst(ret.Results[len(ret.Results)-1]) {
+				continue
+			}
+			n++
+			if !mustPassEdge(g, b, wide) {
+				return false
+			}
+		}
+		if n == 0 {
+			return false
+		}
+		memo[g] = 2
+		return true
+	}
+	wide = func(cond ssa.Value, truth bool) bool {
+		if ok(cond, truth) {
+			return true
+		}
+		for _, ef := range expandFacts([]edgeFact{{Cond: cond, Truth: truth}}) {
+			bo, isB := ef.Cond.(*ssa.BinOp)
+			if !isB || (bo.Op != token.EQL && bo.Op != token.NEQ) {
+				continue
+			}
+			for _, pr := range [][2]ssa.Value{{bo.X, bo.Y}, {bo.Y, bo.X}} {
+				if !isNilConst(pr[1]) || (bo.Op == token.EQL) != ef.Truth {
+					continue
+				}
+				ex, isEx := pr[0].(*ssa.Extract)
+				if !isEx {
+					continue
+				}
+				c, isCall := ex.Tuple.(*ssa.Call)
+				if !isCall {
+					continue
+				}
+				g := c.Common().StaticCallee()
+				if g == nil || g.Blocks == nil || !smallHelper(g) || ex.Index != g.Signature.Results().Len()-1 {
+					continue
+				}
+				if validates(g) {
+					return true
+				}
+			}
+		}
+		return false
+	}
+	return wide
+}
